@@ -311,6 +311,7 @@ def main(rep, tier, seed):
     items, n_exh = gen_cases(rng, tier)
     items = corpus + items
     outl, bad, errors = correspond(binpath, items, TAG)
+    rep.extra["build_profiles"] = F.profile_phase(rep, "c13", items, outl, profiles=("release",)) if not errors and len(outl) == len(items) else {}
     for name, msg in errors:
         rep.violation("correspondence_error_" + name.replace("/", "_"),
                       {"kind": "correspondence could not be evaluated", "where": name, "log": msg}, no_input=True)
